@@ -526,7 +526,7 @@ def thread_search(template, pid, secs):
 # (share: a fan-out nested inside another, or another sink acting during a delivery).
 # They are explored by the bounded stand-in on every run, as a labelled supplement to the proof.
 PROFILE_GAPS = {
-    "share": {"scenarios": ["share2", "share3", "share3X"], "why": "nested fan-out (a sink pulls from inside its handler and the source answers at once) and another sink acting during a delivery (share3X) are outside profile R of the unit share",
+    "share": {"scenarios": ["share2", "share3", "share3X", "share3X@[0,0,2,0,0,2,0,0]#16"], "why": "nested fan-out (a sink pulls from inside its handler and the source answers at once) and another sink acting during a delivery (share3X) are outside profile R of the unit share",
               "properties": ["C01", "C02", "C03", "C04", "C05", "C12", "C17"]},
 }
 
@@ -551,20 +551,23 @@ def gap_search(pid, key):
                     continue
                 excl = []
                 for f in load_findings().get("findings", []):
-                    if f.get("replay") and f["replay"]["scenario"].rstrip("LXPR") in [x.rstrip("LXPR") for x in gap["scenarios"]]:
+                    if f.get("replay") and f["replay"]["scenario"].rstrip("LXPR") in [x.split("@")[0].rstrip("LXPR") for x in gap["scenarios"]]:
                         for x in f.get("excludes", [f["replay"]["expect"]]):
                             excl += ["--exclude", x]
                 entry = {"scenarios": [], "runs": 0, "hits": {}}
                 for sc in gap["scenarios"]:
+                    # `name@prefix#len`: every tape starts with a fixed set-up (share3X: three sinks attached, upstream greeted)
+                    m = re.fullmatch(r"(\w+)@(\[[\d, ]*\])#(\d+)", sc)
+                    args = [m.group(1), "--prefix", m.group(2), "--len", m.group(3)] if m else [sc, "--len", str(gap.get("len", 10))]
                     try:
-                        p = subprocess.run([REPLAY, "collect", sc, "--len", str(gap.get("len", 10)), "--budget", "3000000"] + excl, capture_output=True, text=True, timeout=900)
+                        p = subprocess.run([REPLAY, "collect"] + args + ["--budget", "3000000"] + excl, capture_output=True, text=True, timeout=900)
                         d = json.loads(p.stdout)
                     except Exception:
                         continue
                     entry["scenarios"].append(sc + (" (budget exhausted)" if d.get("budget_exhausted") else ""))
                     entry["runs"] += d.get("runs", 0)
                     for pp, hh in d.get("hits", {}).items():
-                        entry["hits"].setdefault(pp, dict(hh, scenario=sc))
+                        entry["hits"].setdefault(pp, dict(hh, scenario=(m.group(1) if m else sc)))
                 cache[op] = entry
                 json.dump(cache, open(path, "w"))
             e = cache[op]
